@@ -29,6 +29,7 @@ type Exec struct {
 	nframes int
 	Notes  []string
 	lemmaAxioms []*Term
+	inst     string // type instance of a generic function under verification ("jsonNode")
 	measure0 []measureComp
 	NoTermination bool
 }
@@ -355,7 +356,11 @@ func (x *Exec) viewStep(st *St, v *Val, reads map[string]bool) *Val {
 	if reads != nil {
 		reads[f.Key] = true
 	}
-	return &Val{T: Select(x.heapTerm(st, f), v.HBase), Ty: v.Ty}
+	out := &Val{T: Select(x.heapTerm(st, f), v.HBase), Ty: v.Ty}
+	if p, ok := x.W.CS.FieldProto[f.Key]; ok {
+		out.Proto = x.W.protoOf(p)
+	}
+	return out
 }
 
 // materialize turns a heap view of a struct value into an explicit struct value.
